@@ -86,6 +86,74 @@ theorem hnc_linearises (γ u : ℝ) (hγ : |γ| ≤ 1 / 2) (hu : |u| ≤ 1 / 2) 
 theorem msa_linearises (γ u : ℝ) : closureFormula .msa γ u + u = 0 := by
   unfold closureFormula; ring
 
+/-- `s = √(1+2t) − 1` for `|t| ≤ 1/2`: `t − s = s²/2` and `|s| ≤ 2|t|` -/
+theorem sqrt_shift (t : ℝ) (ht : |t| ≤ 1 / 2) :
+    t - (Real.sqrt (1 + 2 * t) - 1) = (Real.sqrt (1 + 2 * t) - 1) ^ 2 / 2 ∧ |Real.sqrt (1 + 2 * t) - 1| ≤ 2 * |t| := by
+  have hpos : 0 ≤ 1 + 2 * t := by have := (abs_le.mp ht).1; linarith
+  have hsq : Real.sqrt (1 + 2 * t) ^ 2 = 1 + 2 * t := Real.sq_sqrt hpos
+  have hs0 : 0 ≤ Real.sqrt (1 + 2 * t) := Real.sqrt_nonneg _
+  constructor
+  · nlinarith
+  · have hfac : (Real.sqrt (1 + 2 * t) - 1) * (Real.sqrt (1 + 2 * t) + 1) = 2 * t := by nlinarith
+    have hden : 1 ≤ Real.sqrt (1 + 2 * t) + 1 := by linarith
+    have : |Real.sqrt (1 + 2 * t) - 1| * |Real.sqrt (1 + 2 * t) + 1| = 2 * |t| := by
+      rw [← abs_mul, hfac, abs_mul]; simp
+    have h1 : |Real.sqrt (1 + 2 * t) + 1| = Real.sqrt (1 + 2 * t) + 1 := abs_of_nonneg (by linarith)
+    rw [h1] at this
+    nlinarith [abs_nonneg (Real.sqrt (1 + 2 * t) - 1), abs_nonneg t]
+
+/-- the published Martynov–Sarkisov form B (`γ* = γ − u`) reduces to `c = −u` to second order -/
+theorem msB_linearises (γ u : ℝ) (hγ : |γ| ≤ 1 / 4) (hu : |u| ≤ 1 / 4) :
+    |closureFormula .msB γ u + u| ≤ 12 * (γ ^ 2 + u ^ 2) := by
+  unfold closureFormula
+  simp only [Transc_exp, Transc_sqrt, Lit_ofNat, Nat.cast_one, Nat.cast_ofNat]
+  set t := γ - u with ht
+  have htb : |t| ≤ 1 / 2 := by
+    calc |γ - u| ≤ |γ| + |u| := abs_sub _ _
+      _ ≤ 1 / 2 := by linarith
+  obtain ⟨h1, h2⟩ := sqrt_shift t htb
+  set s := Real.sqrt (1 + 2 * t) - 1 with hs
+  have hs1 : |s| ≤ 1 := by linarith
+  have hexp := Real.abs_exp_sub_one_sub_id_le hs1
+  have e : Real.exp s - 1 - γ + u = (Real.exp s - 1 - s) - s ^ 2 / 2 := by rw [ht] at h1; linarith
+  rw [e]
+  have hs2 : s ^ 2 ≤ 4 * t ^ 2 := by
+    have := abs_nonneg s; have := abs_nonneg t
+    calc s ^ 2 = |s| ^ 2 := (sq_abs s).symm
+      _ ≤ (2 * |t|) ^ 2 := by gcongr
+      _ = 4 * t ^ 2 := by rw [mul_pow, sq_abs]; norm_num
+  calc |Real.exp s - 1 - s - s ^ 2 / 2| ≤ |Real.exp s - 1 - s| + |s ^ 2 / 2| := abs_sub _ _
+    _ ≤ s ^ 2 + s ^ 2 / 2 := by
+        rw [abs_of_nonneg (by positivity : 0 ≤ s ^ 2 / 2)]; linarith
+    _ ≤ 6 * t ^ 2 := by linarith
+    _ ≤ 12 * (γ ^ 2 + u ^ 2) := by rw [ht]; nlinarith [sq_nonneg (γ + u)]
+
+/-- the published Martynov–Sarkisov form A (1983) reduces to `c = −u` to second order -/
+theorem msA_linearises (γ u : ℝ) (hγ : |γ| ≤ 1 / 4) (hu : |u| ≤ 1 / 4) :
+    |closureFormula .msA γ u + u| ≤ 12 * (γ ^ 2 + u ^ 2) := by
+  unfold closureFormula
+  simp only [Transc_exp, Transc_sqrt, Lit_ofNat, Nat.cast_one, Nat.cast_ofNat]
+  have hγ2 : |γ| ≤ 1 / 2 := by linarith
+  obtain ⟨h1, h2⟩ := sqrt_shift γ hγ2
+  set s := Real.sqrt (1 + 2 * γ) - 1 with hs
+  have he : -u + Real.sqrt (1 + 2 * γ) - 1 = s - u := by rw [hs]; ring
+  rw [he]
+  have hb : |s - u| ≤ 1 := by
+    calc |s - u| ≤ |s| + |u| := abs_sub _ _
+      _ ≤ 1 := by linarith
+  have hexp := Real.abs_exp_sub_one_sub_id_le hb
+  have e : Real.exp (s - u) - 1 - γ + u = (Real.exp (s - u) - 1 - (s - u)) - s ^ 2 / 2 := by linarith
+  rw [e]
+  have hs2 : s ^ 2 ≤ 4 * γ ^ 2 := by
+    calc s ^ 2 = |s| ^ 2 := (sq_abs s).symm
+      _ ≤ (2 * |γ|) ^ 2 := by gcongr
+      _ = 4 * γ ^ 2 := by rw [mul_pow, sq_abs]; norm_num
+  calc |Real.exp (s - u) - 1 - (s - u) - s ^ 2 / 2| ≤ |Real.exp (s - u) - 1 - (s - u)| + |s ^ 2 / 2| := abs_sub _ _
+    _ ≤ (s - u) ^ 2 + s ^ 2 / 2 := by
+        rw [abs_of_nonneg (by positivity : 0 ≤ s ^ 2 / 2)]; linarith
+    _ ≤ 2 * s ^ 2 + 2 * u ^ 2 + s ^ 2 / 2 := by nlinarith [sq_nonneg (s + u)]
+    _ ≤ 12 * (γ ^ 2 + u ^ 2) := by nlinarith [sq_nonneg u]
+
 /-- **negation witness (finding F6)**: the shipped Martynov–Sarkisov expression does not even
 vanish for `γ = 0`, `u = 0` (`e^{√½ − 1} − 1 ≈ −0.254`), so it is neither published form and
 cannot let correlations decay to zero -/
